@@ -256,7 +256,9 @@ def make_cv(rng, run, vd, ds, allow_default=True, max_splits=6, rs_kind_wanted=N
         run.count("class:random_state:cv:" + (rs_kind if randomised else "not_randomised"))
         default_how = str(rng.choice(hows))
 
-        def factory(how=None, make=make, label=label, thin=thin, default_how=default_how, hows=tuple(hows)):
+        replayable = (not randomised) or rs_kind == "int"
+
+        def factory(how=None, make=make, label=label, thin=thin, default_how=default_how, hows=tuple(hows), replayable=replayable):
             """how: proxy (recording, split is a generator) | proxy_list (recording, split returns a list) | bare (the instance itself)
             | other (any spelling different from the default one)."""
             if how is None:
@@ -266,7 +268,7 @@ def make_cv(rng, run, vd, ds, allow_default=True, max_splits=6, rs_kind_wanted=N
             run.count("class:cv_spelling:" + how)
             if how == "bare":
                 return make()
-            return R.RecordingCV(make(), label, thin, seed, as_list=(how == "proxy_list"))
+            return R.RecordingCV(make(), label, thin, seed, as_list=(how == "proxy_list"), remake=make if replayable else None)
 
         return factory, label, len(splits)
     k = 4
@@ -1211,3 +1213,95 @@ def case_defaults(run, rng, vd, index=0):
         with M.GL:
             M.flush_local(run)
     run.sample("defaults", {"dataset": info, "SplineCV()": repr(bare.get_params())[:300], "cross_val_score(est, c, d)": short})
+
+
+def case_utm(run, rng, vd, index=0):
+    """
+    Blocked cross-validators on large-offset (UTM-like) coordinates: eastings ~5e5, northings ~7.5e6, a third of the points moved to
+    0.01 - 10 m from an interior block edge. The rows of every split must be the rows the cross-validator yields for the float64
+    feature matrix built by the harness (replayed), the scores those of the reference fitted on these rows; train_test_split with the
+    same blocks must keep blocks whole.
+    """
+    from .. import ref
+
+    n = int(rng.integers(45, 70 if run.tier == "quick" else 90))
+    width, height = float(rng.uniform(300, 5000)), float(rng.uniform(300, 5000))
+    east = 5e5 + rng.uniform(-4e4, 4e4) + rng.uniform(0, width, n)
+    north = 7.5e6 + rng.uniform(-4e5, 4e5) + rng.uniform(0, height, n)
+    if rng.random() < 0.5:
+        kw = {"shape": (int(rng.integers(2, 5)), int(rng.integers(2, 5)))}
+        counts = [kw["shape"][1], kw["shape"][0]]
+    else:
+        sp_n, sp_e = float(np.ptp(north) / rng.uniform(1.6, 4.4)), float(np.ptp(east) / rng.uniform(1.6, 4.4))
+        kw = {"spacing": (sp_n, sp_e)}
+        counts = [ref.n_intervals_for(east.min(), east.max(), None, sp_e)[0], ref.n_intervals_for(north.min(), north.max(), None, sp_n)[0]]
+    # move interior points next to interior block edges (never the extreme points: the region must stay the same)
+    moved = 0
+    for axis, (values, count) in enumerate(zip((east, north), counts)):
+        if count < 2:
+            continue
+        lo, hi = values.min(), values.max()
+        edges = lo + (hi - lo) * np.arange(1, count) / count
+        inner = [i for i in range(n) if i not in (int(np.argmin(values)), int(np.argmax(values)))]
+        for i in rng.choice(inner, size=max(3, n // 6), replace=False):
+            delta = float(10 ** rng.uniform(-2, 1)) * (1 if rng.random() < 0.5 else -1)
+            values[i] = float(rng.choice(edges)) + delta
+            moved += 1
+    run.count("class:utm:points_moved_next_to_block_edges", moved)
+    amp = gen.log_uniform(rng, 1e-1, 1e3)
+    field = gen.smooth_field(rng, east, north, amplitude=amp)
+    data = field + rng.uniform(0.15, 0.5) * np.std(field) * rng.normal(size=n)
+    weights = 10 ** rng.uniform(-1, 1, n) if rng.random() < 0.5 else None
+    try:
+        ds = R.Dataset((east, north), (data,), None if weights is None else (weights,))
+    except ValueError:
+        run.count("utm_case_dropped:duplicate_points")
+        return
+    S.register(ds)
+    feat = np.column_stack([ds.coordinates[0], ds.coordinates[1]])
+    with warnings.catch_warnings():
+        warnings.simplefilter("ignore")
+        seed = int(rng.integers(0, 2 ** 31 - 1))
+        for _ in range(20):
+            if (index + _) % 2 == 0:
+                k, shuffle = int(rng.integers(2, 5)), bool(rng.random() < 0.5)
+                make = lambda k=k, shuffle=shuffle: vd.BlockKFold(n_splits=k, shuffle=shuffle, random_state=seed if shuffle else None, **kw)  # noqa: E731
+                label = "BlockKFold"
+            else:
+                k, ts = int(rng.integers(2, 5)), float(rng.uniform(0.25, 0.5))
+                make = lambda k=k, ts=ts: vd.BlockShuffleSplit(n_splits=k, test_size=ts, random_state=seed, **kw)  # noqa: E731
+                label = "BlockShuffleSplit"
+            try:
+                splits = list(make().split(feat))
+            except ValueError:
+                run.count("cv_config_refused")
+                continue
+            if len(splits) >= 2 and all(len(te) >= 3 and len(tr) >= 12 for tr, te in splits):
+                break
+        else:
+            run.count("utm_case_dropped:no_valid_cv")
+            return
+        run.count("class:utm:cv:" + label)
+        run.count("class:utm:blocks:" + sorted(kw)[0])
+        est, est_label = make_estimator(rng, run, vd, 1)
+        scoring = pick_scoring(rng, run)
+        c, d = (ds.coordinates[0].copy(), ds.coordinates[1].copy()), ds.data[0].copy()
+        w = None if weights is None else ds.weights[0].copy()
+        serial = vd.cross_val_score(est, c, d, weights=w, cv=R.RecordingCV(make(), label, remake=make), scoring=scoring)
+        st = last_ticket(serial)
+        lazy = vd.cross_val_score(est, c, d, weights=w, cv=R.RecordingCV(make(), label, remake=make), scoring=scoring, delayed=True)
+        dt = last_ticket(lazy)
+        if st is None or st.serial_values is None or dt is None:
+            run.count("utm_case_not_judged")
+        else:
+            run.mark_nontrivial("utm", ds.coordinates[0], ds.coordinates[1], label, sorted(kw.items()), [s_[1] for s_ in st.splits])
+            compute_under(run, dt, lazy, "threads-4", rng, st.serial_values if same_splits(dt.splits, st.splits) else None)
+        # the same blocks in train_test_split
+        try:
+            vd.train_test_split(c, d, w, test_size=0.3, random_state=seed, **kw)
+        except ValueError as exc:
+            run.count("refused:train_test_split:" + str(exc)[:40])
+    run.sample("utm", {"easting": ds.coordinates[0], "northing": ds.coordinates[1], "blocks": kw, "cv": label, "estimator": est_label,
+                       "scores": None if st is None else st.serial_values})
+    with M.GL:
+        M.flush_local(run)
